@@ -498,6 +498,27 @@ func TestVerif_C16_JSON(t *testing.T) {
 	if err := json.Unmarshal([]byte(`[{"name":"B","pattern":"b"}]`), &reused); err != nil || len(reused) != 1 || reused[0].Action != nil || reused[0].Name != "B" {
 		res.violate("a rule without an action decoded into a reused slice comes out as %+v (%v)", reused, err)
 	}
+	// ... whatever the value held before and whatever the rule lacks (name, pattern or action): every ordered pair
+	pool := []Rule{{"A", "a", Pop()}, {"C", "c", Push("X")}, {"", "", nil}, ReturnRule, {"N", "", nil}, {"", "p", include{"S"}}}
+	for _, prev := range pool {
+		for _, next := range pool {
+			res.Evaluations++
+			data, err := json.Marshal(&next)
+			if err != nil {
+				res.violate("marshalling %+v: %v", next, err)
+				continue
+			}
+			var fresh Rule
+			used := prev
+			e1, e2 := json.Unmarshal(data, &fresh), json.Unmarshal(data, &used)
+			if (e1 == nil) != (e2 == nil) || !reflect.DeepEqual(fresh, used) {
+				res.violate("%s decoded into a fresh rule gives %+v (%v), into one that held %+v gives %+v (%v)", data, fresh, e1, prev, used, e2)
+			}
+			if e1 == nil && !reflect.DeepEqual(fresh, next) {
+				res.violate("%+v comes back from JSON as %+v", next, fresh)
+			}
+		}
+	}
 	res.emit(t)
 }
 
